@@ -410,6 +410,19 @@ def replay(f):
     npos = 1 if aper.isscalar else len(aper)
     bk = [float(w.get(f'b{k}', 0.0)) for k in range(npos)]
     method, sp = p['method']
+    d0, e0 = d.copy(), e.copy()
+    m0 = None if mask is None else mask.copy()
+    if 'input-modified' in f['key']:
+        with warnings.catch_warnings():
+            warnings.simplefilter('ignore')
+            st = ApertureStats(d, aper, error=e, mask=mask,
+                               local_bkg=bk if npos > 1 else bk[0],
+                               sum_method=method, subpixels=sp)
+            st.to_table(st.properties)
+        bad = not np.array_equal(d, d0, equal_nan=True) or not \
+            np.array_equal(e, e0, equal_nan=True) or (
+            mask is not None and not np.array_equal(mask, m0))
+        return bad, f'input modified: {bad}'
     with warnings.catch_warnings():
         warnings.simplefilter('ignore')
         st = ApertureStats(d, aper, error=e, mask=mask,
